@@ -234,6 +234,34 @@ def write_replay(pid, seed, tag, content):
     return path
 
 
+def report_foreign(pid, seed, foreign):
+    """What this check saw but could attribute to ANOTHER property (verifcore/blame.py): one NOTE line per owner, a file
+    with every item.  Never a violation of `pid`; the owner's check is the one that must (and does) report it."""
+    by = {}
+    for f in foreign:
+        by.setdefault("/".join(f.get("owners") or ["?"]), []).append(f)
+    lines = [f"# property {pid}: NOT violations of {pid} - items seen by this check that belong to other properties",
+             f"# (each was attributed by the rule stated with it; run the owner's check: ./check <owner> quick)"]
+    for owner, fs in sorted(by.items()):
+        lines.append(f"# ---- belongs to {owner}: {len(fs)} item(s)")
+        for f in fs[:12]:
+            lines.append(f"#   [{f.get('stream', '')}] {f.get('why', '')}")
+            if f.get("oracle"):
+                lines.append(f"#   oracle failure {f['oracle']}: {str(f.get('what', ''))[:400]}")
+                lines += [l for l in str(f.get("replay", "")).splitlines()]
+            elif f.get("detail"):
+                lines += ["#      " + l for l in str(f["detail"]).splitlines()]
+            else:
+                lines.append(f"#   line {f.get('line')}: impl={str(f.get('impl'))[:300]} | model={str(f.get('model'))[:300]}")
+                lines.append(str(f.get("op")))
+    path = write_replay(pid, seed, "foreign", "\n".join(lines))
+    for owner, fs in sorted(by.items()):
+        f = fs[0]
+        print(f"NOTE property={pid} belongs-to={owner} items={len(fs)} file={path} :: {f.get('why', '')[:260]}")
+        log(f"  e.g. [{f.get('stream', '')}] {str(f.get('op') or f.get('oracle'))[:200]}")
+    return path
+
+
 # ------------------------------------------------------------------------------------------ main
 
 def main(argv):
@@ -252,6 +280,9 @@ def main(argv):
         return replay(pid, spec, argv[argv.index("--replay") + 1])
 
     broken = []      # proof obligations / ties that no longer check: (kind, name, detail)
+    foreign = []     # what this run saw but belongs to ANOTHER property (verifcore/blame.py): noted, never a violation here
+    skipped_ns = set()
+    audited_modules = spec["lean_modules"]
     notes = []
     thms = []
     harness_stats = {}
@@ -269,11 +300,46 @@ def main(argv):
         if not ok:
             # Lean prints `file:line:col: error: …`, lake (4.33) `error: file:line:col: …`
             names = sorted(set(re.findall(r"([\w/]+\.lean):(\d+):\d+: error", out) + re.findall(r"error: ([\w/]+\.lean):(\d+):\d+:", out)))
-            thm_names = sorted(set(filter(None, (theorem_at(a, int(b)) for a, b in names))))
+            # a module that imports something that is not there (a generated module the translator could not produce) or that
+            # itself failed: `error: <file>: bad import '<module>'`.  Only the ROOT files count - those whose missing import is
+            # not itself one of the failing files (the rest is the cascade through the import graph)
+            bad = re.findall(r"error: ([\w/]+\.lean): bad import '([\w.]+)'", out)
+            failing_mods = {a[:-5].replace("/", ".") for a, _ in bad} | {a[:-5].replace("/", ".") for a, _ in names}
+            roots = sorted({(a, "0") for a, m in bad if m not in failing_mods})
+            bad_label = ", ".join(f"{a}: bad import '{m}'" for a, m in bad if m not in failing_mods)
+            names = sorted(set(names) | set(roots))
+            thm_names = sorted(set(filter(None, (theorem_at(a, int(b)) for a, b in names if b != "0"))))
+            if bad_label:
+                thm_names.append(bad_label)
             label = ", ".join(thm_names) or ", ".join(f"{a}:{b}" for a, b in names) or "lake build"
-            broken.append(("proof", label, "\n".join(out.splitlines()[-60:])))
-        else:
-            ok, thms, aout = audit(spec["lean_modules"])
+            # Whose obligation broke?  (verifcore/blame.py)  If every failing file lies in the directory of ANOTHER property
+            # whose own check builds it, that check reports it.  Here it matters only through the import graph:
+            #  - a module of this property's own directory imports it: this property's theorems cannot be re-checked on this
+            #    run -> still reported, and the text says whose tie broke and which of our modules rest on it;
+            #  - only COMPOSITION modules (SPEC["composition_dirs"]) import it: noted, and the remaining modules are built and
+            #    audited as usual (the required theorems of the affected composition modules are not re-checked on this run).
+            from verifcore import blame
+            split = blame.split_build_failure(pid, spec, [a for a, _ in names])
+            comp_ok = split and not split["affected_own"] and all(("SemaModel/" + blame.dir_owner(m)) in spec.get("composition_dirs", []) for m in split["affected_composition"])
+            if comp_ok:
+                foreign.append({"owners": split["owners"], "stream": "lake build (proof modules)", "op": label,
+                                "why": "a proof obligation of property " + "/".join(split["owners"]) + " no longer checks (" + label + "); of this check's modules only the composition modules " + ", ".join(split["affected_composition"]) + " import it; their theorems are not re-checked on this run, the other modules are",
+                                "detail": "\n".join(out.splitlines()[-25:])})
+                skipped_ns = {"Sema." + blame.dir_owner(m) + "." for m in split["affected_composition"]}
+                if split["unaffected"]:
+                    ok, out, errs, dt = lake_build(split["unaffected"])
+                    log(f"lake build {' '.join(split['unaffected'])} (without the composition modules that import the foreign failure): {'ok' if ok else 'FAILED'} ({dt:.1f}s)")
+                    if ok:
+                        audited_modules = split["unaffected"]
+                    else:
+                        broken.append(("proof", "lake build " + " ".join(split["unaffected"]), "\n".join(out.splitlines()[-60:])))
+            else:
+                if split:
+                    label += " (an obligation of property " + "/".join(split["owners"]) + ", reported by its own check; " + ", ".join(split["affected_own"]) + " of this property import" + ("s" if len(split["affected_own"]) == 1 else "") + " it, so their theorems could not be re-checked on this run)"
+                broken.append(("proof", label, "\n".join(out.splitlines()[-60:])))
+                ok = False
+        if ok:
+            ok, thms, aout = audit(audited_modules)
             if not ok or not thms:
                 broken.append(("audit", "Audit.lean", aout[-3000:]))
             for t in thms:
@@ -285,6 +351,8 @@ def main(argv):
             broken.append(("forbidden-token", h, h))
         for need in spec.get("required_theorems", []):
             if thms and need not in {t["name"] for t in thms}:
+                if any(need.startswith(ns) for ns in skipped_ns):
+                    continue   # a theorem of a composition module that imports a foreign failure (noted above)
                 broken.append(("proof", need, "required property theorem is missing from the module"))
         # the STATEMENT of every required theorem is pinned by a hash of its type (props/hashes/Cxx.json,
         # refreshed deliberately with devtools/update_hashes.py): a theorem cannot be weakened silently
@@ -296,7 +364,7 @@ def main(argv):
                 if name in have and have[name] is not None and str(have[name]) != str(h):
                     broken.append(("statement-changed", name, f"the statement of {name} differs from the recorded one (hash {have[name]} != {h}); if intended, run devtools/update_hashes.py {pid}"))
         if tier == "thorough" and not any(b[0] == "proof" for b in broken):
-            rc, o, dt = sh(["lake", "env", "leanchecker"] + spec["lean_modules"], cwd=LEAN)
+            rc, o, dt = sh(["lake", "env", "leanchecker"] + audited_modules, cwd=LEAN)
             log(f"leanchecker: rc={rc} ({dt:.1f}s)")
             if rc != 0:
                 broken.append(("leanchecker", "leanchecker", o[-3000:]))
@@ -323,6 +391,7 @@ def main(argv):
         harness_stats, disagreements, compared = res["stats"], res["disagreements"], res["compared"]
         for b in res.get("broken", []):
             broken.append(tuple(b))
+        foreign += res.get("foreign", []) or []
     elif hok:
         args = [hbin, "-seed", str(seed), "-out", rundir] + [str(a) for a in spec["harness_args"][tier]]
         rc, hout, dt = sh(args, env=GOENV, timeout=spec.get("timeout", {}).get(tier, 3000))
@@ -339,8 +408,13 @@ def main(argv):
                     disagreements, compared = diff_lines(os.path.join(rundir, "ops.txt"), os.path.join(rundir, "impl.txt"), os.path.join(rundir, "model.txt"))
             else:
                 broken.append(("driver-build", driver_target(pid), dout[-3000:]))
+    # what a harness itself could show to be another property's (vh.Out.Note): noted, not judged here
+    for f in (harness_stats.pop("foreign", None) or []) if isinstance(harness_stats, dict) else []:
+        foreign.append({"owners": f.get("owners"), "stream": f.get("stream"), "oracle": f.get("op"), "what": f.get("why"), "why": f.get("why"), "replay": f.get("replay", "")})
     if disagreements:
         broken.append(("correspondence", f"{len(disagreements)}+ of {compared} op lines differ", json.dumps(disagreements[:5], indent=1)))
+
+    foreign_path = report_foreign(pid, seed, foreign) if foreign else None
 
     # ---------------------------------------------------------------- decide
     known = load_known(pid)
@@ -403,6 +477,8 @@ def main(argv):
         "distribution": harness_stats.get("distribution", {}),
         "oracle_failures": oracle[:10],
         "broken": [{"kind": k, "name": n} for k, n, _ in broken],
+        "foreign": [{"owners": f.get("owners"), "stream": f.get("stream"), "op": str(f.get("op") or f.get("oracle"))[:300], "why": f.get("why")} for f in foreign[:10]],
+        "foreign_count": len(foreign),
         "tie": spec.get("tie", ""),
     }
     for k, v in harness_stats.items():
@@ -425,7 +501,8 @@ def main(argv):
         for d in disagreements[:3]:
             log(f"  differs at line {d.get('line')}: op={str(d.get('op'))[:200]} | impl={str(d.get('impl'))[:200]} | model={str(d.get('model'))[:200]}")
         return 1
-    log(f"{pid} {tier}: {discharged}/{obligations} obligations discharged, {compared} op lines agree with the model, {len(oracle)} oracle failures (all listed), {time.time()-t0:.1f}s")
+    noted = f", {len(foreign)} item(s) noted for other properties ({foreign_path})" if foreign else ""
+    log(f"{pid} {tier}: {discharged}/{obligations} obligations discharged, {compared} op lines agree with the model, {len(oracle)} oracle failures (all listed){noted}, {time.time()-t0:.1f}s")
     return 0
 
 
